@@ -1961,6 +1961,9 @@ class Group(Element):
     def _get_children(self, trailing=False):
         if Validator.is_strict(self.validation_level):
             children = self.children.get_ordered_children()
+            # Z-segments have no place in the structure: they follow the children that have one
+            ordered = self.ordered_children or ()
+            children.extend([(c,) for c in self.children.list if c.name not in ordered])
         else:
             children = self.children.get_children()
         if not trailing:
